@@ -113,7 +113,7 @@ func (g *c06) read(op int, msg proto.Message, fm *fieldmaskpb.FieldMask, js map[
 }
 
 // one observation: Validate (for op FilterClone) and the read itself
-func (g *c06) observe(op int, msg proto.Message, fm *fieldmaskpb.FieldMask, corrupt vmsg.PathKind, class string) {
+func (g *c06) observe(op int, msg proto.Message, fm *fieldmaskpb.FieldMask, corrupt vmsg.PathKind, class string) (panicked bool) {
 	js := map[string]any{"op": opNames[op], "type": string(msg.ProtoReflect().Descriptor().FullName()),
 		"message": vmsg.JSON(msg), "read_mask": vmsg.MaskJSON(fm), "mask_class": class}
 	code := int64(-1)
@@ -139,6 +139,7 @@ func (g *c06) observe(op int, msg proto.Message, fm *fieldmaskpb.FieldMask, corr
 	nt := fm != nil && len(fm.Paths) > 0 && len(vmsg.Value(msg)) > len("(VM [])")
 	g.o.Add(vcoq.Case{Coq: term, JSON: js, Key: term, NonTrivial: nt,
 		Tags: []string{"op:" + opNames[op], "mask:" + class, "result:" + res, fmt.Sprintf("validate:%d", code)}})
+	return panicked
 }
 
 // populated returns a valid path that names something present in msg when possible (so that
@@ -334,10 +335,12 @@ func genC06(o *vcoq.Out, r *vcoq.Rand, tier string) error {
 		"child+parent", "child+parent", "siblings", "through-repeated-message"}
 	cfgs := []vmsg.RandCfg{vmsg.DefaultCfg, {FieldPct: 60, Depth: 2, MaxList: 2}, {FieldPct: 12, Depth: 3, MaxList: 3}}
 	emit := func(msg proto.Message, fm *fieldmaskpb.FieldMask, kind vmsg.PathKind, class string) {
-		g.observe(opFilterClone, msg, fm, kind, class)
+		panicked := g.observe(opFilterClone, msg, fm, kind, class)
 		if r.Chance(33) {
 			for _, op := range []int{opFilter, opValueGet, opList, opPullSeed} {
-				if r.Chance(50) {
+				// Pull filters on a goroutine of the library: a panic there cannot be recovered by the
+				// harness, so it is only exercised with inputs FilterClone survived
+				if r.Chance(50) && !(panicked && op == opPullSeed) {
 					g.observe(op, msg, fm, kind, class)
 				}
 			}
@@ -390,10 +393,24 @@ func genC06(o *vcoq.Out, r *vcoq.Rand, tier string) error {
 	// the inputs of the two defects repaired in pkg/masks/get.go, always present
 	st := &testproto.TestAllTypes{DefaultInt32: 7, DefaultForeignMessage: &testproto.ForeignMessage{C: 1, D: 2},
 		MapStringNestedMessage: map[string]*testproto.TestAllTypes_NestedMessage{"a": {A: 1}}, RepeatedInt32: []int32{1, 2}}
-	for _, op := range []int{opFilterClone, opFilter, opValueGet, opList, opPullSeed} {
-		g.observe(op, st, &fieldmaskpb.FieldMask{Paths: []string{"default_foreign_message", "default_foreign_message.c"}}, vmsg.PathValid, "parent+child")
-		g.observe(op, st, &fieldmaskpb.FieldMask{Paths: []string{"map_string_nested_message.a"}}, vmsg.PathThroughMap, "corrupt:through-map")
-		g.observe(op, st, &fieldmaskpb.FieldMask{Paths: []string{"repeated_int32.x", "default_int32.y"}}, vmsg.PathThroughRepScalar, "corrupt:through-repeated-scalar")
+	for _, fix := range []struct {
+		paths []string
+		kind  vmsg.PathKind
+		class string
+	}{
+		{[]string{"default_foreign_message", "default_foreign_message.c"}, vmsg.PathValid, "parent+child"},
+		{[]string{"map_string_nested_message.a"}, vmsg.PathThroughMap, "corrupt:through-map"},
+		{[]string{"repeated_int32.x", "default_int32.y"}, vmsg.PathThroughRepScalar, "corrupt:through-repeated-scalar"},
+	} {
+		panicked := false
+		for _, op := range []int{opFilterClone, opFilter, opValueGet, opList, opPullSeed} {
+			if panicked && op == opPullSeed {
+				continue
+			}
+			if g.observe(op, st, &fieldmaskpb.FieldMask{Paths: fix.paths}, fix.kind, fix.class) {
+				panicked = true
+			}
+		}
 	}
 	return nil
 }
